@@ -2,6 +2,7 @@ package blocktree
 
 import (
 	"bytes"
+	"time"
 
 	vrt "github.com/ChainSafe/gossamer/internal/zzverif/vrt"
 )
@@ -68,5 +69,85 @@ func ZZ_C16_fork_choice() {
 	}
 	bt2 := t.build(order)
 	vrt.Assert("best_independent_of_insertion_order", bt2.BestBlockHash() == got)
+	vrt.Reach("end")
+}
+
+// primaryCountFrom counts primary blocks on i's chain strictly after block root.
+func (t *zzTree) primaryCountFrom(i, root int) int {
+	c := 0
+	for x := i; x != root && x > 0; x = t.parent[x] {
+		if t.primary[x] {
+			c++
+		}
+	}
+	return c
+}
+
+// ZZ_C16_after_finalisation: fork choice stays correct across a finalisation: best block is
+// queried, a block is finalised (the tree is re-rooted and pruned), new blocks are added under
+// the surviving tree, and the best block is compared with the reference computed relative to
+// the NEW root.
+func ZZ_C16_after_finalisation() {
+	n := vrt.Param("blocks", 3)
+	extra := vrt.Param("extra", 2)
+	t := zzGenTree(n, true)
+	bt := t.build(zzNatural(n))
+	_ = bt.BestBlockHash() // query before finalisation (caches, if any, get filled)
+	f := 1 + vrt.Choice("finalise", n)
+	bt.Prune(t.hash[f])
+	live := []int{}
+	for i := 0; i <= n; i++ {
+		if t.isAncestor(f, i) {
+			live = append(live, i)
+		}
+	}
+	for e := 0; e < extra; e++ {
+		sfx := string(rune('a' + e))
+		p := live[vrt.Choice("xparent"+sfx, len(live))]
+		prim := vrt.Bool("xprimary" + sfx)
+		idx := len(t.parent)
+		h := zzHeader(idx, t.hash[p], t.number[p]+1, prim)
+		t.parent = append(t.parent, p)
+		t.number = append(t.number, t.number[p]+1)
+		t.primary = append(t.primary, prim)
+		t.hdr = append(t.hdr, h)
+		t.hash = append(t.hash, h.Hash())
+		t.arrival = append(t.arrival, int64(vrt.U8("xarrival"+sfx)))
+		err := bt.AddBlock(h, time.Unix(t.arrival[idx], 0))
+		vrt.Assert("add_after_finalisation_ok", err == nil)
+		live = append(live, idx)
+	}
+	best := -1
+	for _, i := range live {
+		leaf := true
+		for _, j := range live {
+			if j != f && t.parent[j] == i {
+				leaf = false
+			}
+		}
+		if !leaf {
+			continue
+		}
+		if best < 0 {
+			best = i
+			continue
+		}
+		pa, pb := t.primaryCountFrom(i, f), t.primaryCountFrom(best, f)
+		better := false
+		switch {
+		case pa != pb:
+			better = pa > pb
+		case t.number[i] != t.number[best]:
+			better = t.number[i] > t.number[best]
+		case t.arrival[i] != t.arrival[best]:
+			better = t.arrival[i] < t.arrival[best]
+		default:
+			better = bytes.Compare(t.hash[i][:], t.hash[best][:]) < 0
+		}
+		if better {
+			best = i
+		}
+	}
+	vrt.Assert("best_after_finalisation", bt.BestBlockHash() == t.hash[best])
 	vrt.Reach("end")
 }
